@@ -130,6 +130,7 @@ type Exec struct {
 	modelVars []string
 	entryAlloc *Term // allocation pointer at function entry
 	instSig    *types.Signature
+	inlining   map[string]bool // contract-less helpers currently being inlined
 	curOnly    []string // labels of the facts the next obligation is to be proved from
 	returnOrds map[*ast.ReturnStmt]int
 	// byte-slice parameters at function entry (for projecting a model onto inputs)
